@@ -19,7 +19,7 @@ CLASSES = {
     'generators': {'quick': 1200, 'thorough': 24000},
 }
 MIN_EVENTS = {'quick': {'assert:ens': 1000, 'assert:gen': 600, 'members': 400}}
-CASE_TIMEOUT = 300
+CASE_TIMEOUT = 60
 
 
 def run_ensemble(rng, obs):
@@ -36,6 +36,9 @@ def run_ensemble(rng, obs):
     pen = K.gen_penalty(rng, dim) if rng.random() < 0.3 else None
     maxiter = rng.choice([2, 5, 15, 40]); maxfun = rng.choice([None, None, 60])
     step = rng.random() < 0.3
+    mapname = rng.choice(['default', 'default', 'serial', 'reversed', 'pickling', 'pickling'])   # pickling = copy semantics of a process-based map
+    mons = rng.choice(['none', 'none', 'evalmon', 'stepmon', 'both'])
+    restart = rng.random() < 0.25
     if which == 'lattice':
         if rng.random() < 0.6:
             nbins = tuple(rng.randint(1, 3) for _ in range(dim)); nmem = int(np.prod(nbins))
@@ -45,7 +48,7 @@ def run_ensemble(rng, obs):
         nbins = None; nmem = rng.choice([2, 3, 4, 6])
     if which == 'sparsity': nmem = min(nmem, 3)
     obs.desc = {'ensemble': which, 'nested': nested, 'dim': dim, 'cost': spec, 'box': [box['lo'], box['hi']], 'cons': cons, 'pen': pen,
-                'nbins': nbins, 'npts': nmem, 'maxiter': maxiter, 'maxfun': maxfun, 'step': step}
+                'nbins': nbins, 'npts': nmem, 'maxiter': maxiter, 'maxfun': maxfun, 'step': step, 'map': mapname, 'monitors': mons, 'restart': restart}
     probe = K.CostProbe(raw)
     refc = K.ref_constraint(cons) if cons else None
     bad_box, bad_cons = [], []
@@ -61,11 +64,26 @@ def run_ensemble(rng, obs):
     s.SetEvaluationLimits(maxiter, maxfun)
     if cons: s.SetConstraints(K.make_constraint(cons))
     if pen: s.SetPenalty(K.make_penalty(pen))
+    from mystic.monitors import Monitor
+    from .c07 import MapZoo
+    if mapname != 'default': s.SetMapper(getattr(MapZoo(obs.seed), mapname))
+    evm = stm = None
+    if mons in ('evalmon', 'both'): evm = Monitor(); s.SetEvaluationMonitor(evm)
+    if mons in ('stepmon', 'both'): stm = Monitor(); s.SetGenerationMonitor(stm)
     term = NCOG(1e-4, 2)
     n_before = probe.n
     s.Solve(probe, termination=term, disp=0, **({'step': True} if step else {}))
+    ck = lambda ok, what, **kw: obs.check(ok, 'ens:' + what, ensemble=which, nested=nested, map=mapname, monitors=mons, restart=restart, **kw)
+    if restart:     # continue the same ensemble with raised limits: the accounting is cumulative
+        try:
+            t1 = int(s._total_evals)
+        except AttributeError as e:
+            obs.skip('documented per-member property missing: %s' % e); return
+        ck(t1 == probe.n - n_before, 'total evaluation count equals the number of real cost calls', total=t1, real=probe.n - n_before, step=step, phase='before restart')
+        maxiter = maxiter + rng.choice([1, 3, 10])
+        s.SetEvaluationLimits(maxiter, None if maxfun is None else maxfun + 40)
+        s.Solve(disp=0, **({'step': True} if step else {}))
     calls = probe.calls[n_before:]
-    ck = lambda ok, what, **kw: obs.check(ok, 'ens:' + what, ensemble=which, nested=nested, **kw)
     try:
         allE, allX, allN, allI = list(s._all_bestEnergy), list(s._all_bestSolution), list(s._all_evals), list(s._all_iters)
         total = s._total_evals
@@ -90,7 +108,11 @@ def run_ensemble(rng, obs):
     msgs = s.Terminated(all=True, info=True)
     ck(all(bool(m) for m in msgs), 'every member stopped with a stop message', messages=[str(m)[:60] for m in msgs])
     # first evaluated point of each member (serial map, run-to-completion: members run one after another)
-    if not step and total == len(calls) and total == sum(allN) and nested != 'de':
+    # (the ensemble's own `evaluations` / evaluation monitor mirror the best member by design; the total is `_total_evals`)
+    if stm is not None and finite:
+        eh = [K.fnum(e) for e in s.energy_history]
+        ck(bool(eh) and eh[-1] == be, 'the ensemble\'s energy history ends at the reported best energy', last=eh[-1:], best=be, n=len(eh))
+    if not step and not restart and mapname in ('default', 'serial') and total == len(calls) and total == sum(allN) and nested != 'de':
         starts, ofs = [], 0
         for n in allN:
             if n > 0: starts.append(list(calls[ofs][0]))
